@@ -114,6 +114,23 @@ CHECKS = {
 PENDING_REASON = "check under construction in this session (designed in DESIGN.md section 5); not claimed until it runs clean"
 
 
+# sentences appended to the texts above (parts added late in the project)
+EXTRA = {
+    "C02": " The dump ops of the histories send the dump through compact or indented encoding/json in half of the cases.",
+    "C05": " Every (relation component, target) query is also read by Count + EntityAt(i).",
+    "C06": " Every (relation component, target) query is also read by Count + EntityAt(i); findings about relations are owned for as long as children of a dead target exist.",
+    "C07": " CachedFilter.Matches must equal the original filter's Matches for the mask of every alive entity.",
+    "C09": " One-shot-listener part (TestC09OneShot): a listener that un-installs itself or hands over to another listener inside the removal notification; the world is locked inside and unlocked afterwards. A released query closed a second time must release nothing else. The quick tier also runs two shards of the tiny build (64 lock bits).",
+    "C10": " Also: Query.Relation with a component the current entity does not carry as its relation, refused batch creation with component values, refused forms of Relations.ExchangeBatch(Q).",
+    "C14": " Clones: new entities whose every component is supplied through the Get pointers of a template entity (read from the tables the call changes and possibly grows), sharing the referents.",
+    "C15": " Resource types stay registered under their IDs across Reset (ResourceIDs/ResourceType/ResourceTypeID after every op).",
+    "C16": " Relation-ness of static type shapes is also asked through a generic filter (accepted exactly for relation types); T next to *T, []T, [1]T are distinct types.",
+    "C17": " Entity JSON is also read with generated insignificant white space and the dump through json.MarshalIndent.",
+    "C18": " In half of the cases both worlds carry a recording listener and the event logs of every call must agree. Exchange.Remove/ExchangeBatch with a target, relation components that come in through With (also arity 0), FilterN.Filter, and 16 classes of illegal generic calls are part of the histories.",
+    "C20": " Dynamic resource types are related to each other and to the static ones (T, *T, []T, same layout); after Reset the registry must still know every type under its ID.",
+}
+
+
 def main():
     props = [json.loads(l) for l in open(os.path.join(VERIF, "properties.jsonl"))]
     try:
@@ -134,7 +151,7 @@ def main():
             "evidence_file": f"/verif/evidence/{pid}.json",
             "replay_cmd_template": f"./check {pid} --replay {{path}}",
             "engine": "rapid-harness",
-            "level_claimed": {"category": "exploration", "text": c["text"], "design_ref": c["ref"]},
+            "level_claimed": {"category": "exploration", "text": c["text"] + EXTRA.get(pid, ""), "design_ref": c["ref"]},
             "level_note": c["note"],
             "technique": c["technique"],
         })
